@@ -5,7 +5,7 @@ use serde_json::{Value, json};
 
 pub const PIECES: &[&str] = &[
     "<block>", "</block>", "<block a>", "<block a=1 b='x>y'>", "</ block >", "<block name=\"n\">", "<block/>", "<blockx>",
-    "<", ">", " ", "x", "é", "\n", "<block a=\"q", "</block",
+    "<", ">", " ", "x", "é", "\n", "<block a=\"q", "</block", "<block d=\"c:\\\" e='\\'>",
 ];
 
 pub fn count(maxlen: usize) -> usize {
